@@ -276,6 +276,23 @@ pub fn families() -> Vec<Box<dyn Family>> {
             },
         ),
         family(
+            "asymmetric_blocks",
+            "a block of 10..6000 lines replaced by 10..6000 unrelated lines between common head and tail (strongly lopsided sizes: the search needs thousands of rounds) x lines tokenizer x {Myers, Patience} x {str,[u8]}",
+            false,
+            1,
+            |cfg| if cfg.tiny { 1 } else { cfg.tier.pick(8, 72) },
+            |idx, cfg, out| {
+                let mut rng = Rng::for_case(cfg.seed, "c04.asymmetric_blocks", idx);
+                let (l1, l2) = if cfg.tiny { (5, 1) } else { (*rng.pick(&text_gen::BLOCK_SIZES), *rng.pick(&text_gen::BLOCK_SIZES)) };
+                let (head, tail) = (rng.below(200), rng.below(200));
+                let (a, b) = text_gen::asymmetric_lines_pair(&mut rng, head, tail, l1, l2);
+                out.sample(|| format!("{} head lines, block of {} lines replaced by {} lines, {} tail lines", head, l1, l2, tail));
+                out.nontrivial(&(head, tail, l1, l2));
+                out.count("asymmetric_block_cases");
+                long_case(&a, &b, out);
+            },
+        ),
+        family(
             "constructors",
             "TextDiff::from_lines/from_words/from_chars/from_unicode_words/from_graphemes/from_slices are the default-configured builder: same changes as TextDiff::configure().diff_*; G-TXT pairs x {str,[u8]}",
             false,
